@@ -325,6 +325,35 @@ func emod(a, m int64) int64 {
 var timeType = reflect.TypeOf(time.Time{})
 
 // GoType of the destination for a schema node.
+// GoTypeAlt: a SECOND destination type for the same schema — every struct level has its fields in
+// reverse order behind a padding field, so that same-named fields sit at different positions
+// (a schema object may be used with any destination type that has its fields)
+func (n *Node) GoTypeAlt() reflect.Type {
+	switch n.Kind {
+	case "pre":
+		return n.Elem.GoTypeAlt()
+	case "slice":
+		return reflect.SliceOf(n.Elem.GoTypeAlt())
+	case "ptr":
+		return reflect.PointerTo(n.Elem.GoTypeAlt())
+	case "struct":
+		if n.rtypeAlt != nil {
+			return n.rtypeAlt
+		}
+		fs := []reflect.StructField{{Name: "Zpad", Type: reflect.TypeOf(int(0))}}
+		for _, e := range n.Extra {
+			fs = append(fs, reflect.StructField{Name: e, Type: reflect.TypeOf(int(0))})
+		}
+		for i := len(n.Fields) - 1; i >= 0; i-- {
+			f := n.Fields[i]
+			fs = append(fs, reflect.StructField{Name: f.GoName, Type: f.S.GoTypeAlt(), Tag: reflect.StructTag(f.TagString())})
+		}
+		n.rtypeAlt = reflect.StructOf(fs)
+		return n.rtypeAlt
+	}
+	return n.GoType()
+}
+
 func (n *Node) GoType() reflect.Type {
 	switch n.Kind {
 	case "pre":
